@@ -72,7 +72,7 @@ def io_model(rnd, stream):
     return m
 
 
-REPAIR_NAMES = ["inf", "Inf", "INFINITY", "infinity", "1abc", ".dot", "9", "a*b", "a^2", "a[1]", "x+y", "a-b", "a<b", "a>b", "a=b", "a:b", "2e5", "e9", "E12x", "a\\b"]
+REPAIR_NAMES = ["inf", "Inf", "INFINITY", "infinity", "free", "Free", "FREE", "1abc", ".dot", "9", "a*b", "a^2", "a[1]", "x+y", "a-b", "a<b", "a>b", "a=b", "a:b", "2e5", "e9", "E12x", "a\\b"]
 CLASH_NAMES = ["x1", "x2", "c1", "c2", "c3", "obj", "x_1", "c_2", "C1", "X3"]
 
 
@@ -134,6 +134,9 @@ def gen_case(prop, tier, seed, stream, k):
                 rnd.choice(m.rows).coef[c] = F(rnd.choice([1, -2, 3]))
         if rnd.random() < 0.6 and "obj" not in [x.name for x in m.cols + m.rows]:
             rnd.choice(m.rows).name = "obj"
+    if stream == "repair" and rnd.random() < 0.2:
+        # the problem name is written on a line of its own and read back as one field
+        m.name = rnd.choice(["my prob", "", "a b c", " lead", "tab\there", "trail "])
     fmt = "LP" if prop == "C08" else "MPS"
     files = {}
     if stream == "fromfile":
